@@ -946,9 +946,16 @@ def solve_sylvester_diagonal(
         eigs_A, eigs_B = eigs[index[0]], eigs[index[1]]
 
         if index[0] != index[1] and index[:2] not in index_checked:
-            compare = np.equal if isinstance(Y, sympy.MatrixBase) else np.isclose
+            if isinstance(Y, sympy.MatrixBase):
+                shared = np.equal(eigs_A.reshape(-1, 1), eigs_B.reshape(1, -1))
+            else:
+                # The absolute tolerance is `atol`, not numpy's default 1e-8, so that
+                # a Hamiltonian with a small overall scale is not rejected.
+                shared = np.isclose(
+                    eigs_A.reshape(-1, 1), eigs_B.reshape(1, -1), atol=atol
+                )
 
-            if np.any(compare(eigs_A.reshape(-1, 1), eigs_B.reshape(1, -1))):
+            if np.any(shared):
                 raise ValueError("The subspaces must not share eigenvalues.")
             index_checked.add(index[:2])
 
